@@ -69,6 +69,11 @@ PROPS = {
         "trusted_base": ["modelled rather than verified: decision logic of cmd/check.go, cmd/run.go (coq/Model/Cli.v)"],
         "cli": True,
     },
+    "C13": {
+        "rule": "group portions: portion texts of the literal grammar (percentages with 1-3 integer digits and 0-20 decimals, ratios small / with leading zeros / with spaces around the slash / with numerals beyond 2^64 / above one / over zero, plus the corpus of spellings that were wrong on the pinned tree; thorough: exhaustive short texts), each observed both as a literal (set_tx_meta(\"lit\", TEXT), exact big.Rat from the result) and as a portion variable; group roundtrips: for each of the six types, values written by one script to account and transaction metadata (literals and variables: any sign and size, strings with quotes / spaces / non-ASCII / newlines, portions 0 and 1) are read back by a second script through a metadata-backed variable and by a third through a plain variable. Every case non-trivial; distinct by hash.",
+        "assumptions": ["Spec/Decimal.portion_denotes is what 'denotes exactly that fraction in base ten' means"],
+        "trusted_base": ["modelled rather than verified: parser.go ParsePercentageRatio / parseRatio, interpreter.go parseVar / parseMonetary / ParsePortionSpecific, value.go String() (coq/Model/Conv.v, Run.v, Value.v)", "encoding/json escaping of transaction metadata: glue, exercised only"],
+    },
     "C03": {
         "rule": SCRIPTS_RULE + "profile: one fixed-amount send (optionally preceded by saves). Non-trivial: source and destination trees evaluate and the send reaches the draw; distinct by hash of the case.",
         "assumptions": ["Spec/Greedy.v (draw_exact) is what 'the sources, drawn in their declared order within their balances, caps and overdraft limits, can supply' means",
